@@ -5,6 +5,7 @@ pub mod c01;
 pub mod c02;
 pub mod c03;
 pub mod c04;
+pub mod c05;
 pub mod c07;
 pub mod c08;
 pub mod c09;
@@ -13,12 +14,13 @@ pub mod c19;
 pub mod c20;
 pub mod lazy;
 
-pub const ALL: &[&str] = &["C01", "C02", "C03", "C04", "C06", "C07", "C08", "C09", "C10", "C11", "C12", "C13", "C14", "C19", "C20"];
+pub const ALL: &[&str] = &["C01", "C02", "C03", "C04", "C05", "C06", "C07", "C08", "C09", "C10", "C11", "C12", "C13", "C14", "C19", "C20"];
 
 pub fn families(prop: &str, tier: Tier, variant: &str) -> Vec<Family> {
     match prop {
         "C01" => c01::families(tier, variant),
         "C02" => c02::families(tier, variant, c02::Mode::AcceptReject),
+        "C05" => c05::families(tier, variant),
         "C04" => c04::families(tier, variant),
         "C03" => c03::families(tier, variant, c03::Mode::Tree),
         "C07" => c07::families(tier, variant),
